@@ -127,4 +127,12 @@ def generate(ctx, ids, maxsize, prefixes, commons, label):
     if ctx.quick:
         # quick tier: every configuration of <= 2 collectors, and a seed-dependent third of the larger ones
         cases = [c for i, c in enumerate(cases) if len(c["sel"]) <= 2 or (i + ctx.seed) % 3 == 0]
+    else:
+        # thorough tier: every configuration of <= 3 collectors, a seed-dependent eighth of those with 4
+        cases = [c for i, c in enumerate(cases) if len(c["sel"]) <= 3 or (i + ctx.seed) % 8 == 0]
     return cases
+
+
+def chunks(lst, n):
+    for i in range(0, len(lst), n):
+        yield i, lst[i:i + n]
